@@ -587,11 +587,12 @@ Theorem c03_frames_budget_in_file_size : forall p cpu a os module_at max_module_
 Proof. exact frames_quadratic_in_file. Qed.
 Print Assumptions c03_frames_budget_in_file_size.
 
-(* (2) F-C03h: NO budget linear in the input size holds.  For every factor c below 2^20 there is a dump shorter than 2^32
-       bytes, well-formed for every reader, whose processing (amd64, the walker as it is now, one module whose symbols
-       hold the one-byte CFI rule [share_cfi], which meets the CFI contract) yields more than c x |file| frames, in both
-       profiles: m thread-list entries cite the same m stack bytes, which the file holds once — m x (m + 1) frames out of
-       2048 + 49 m bytes.  (Replayed on the real code: corpus/C03, D cases with share=1; design/C03.md.) *)
+(* (2) informative: NO budget linear in the input size exists, i.e. the quadratic budget (1) is tight up to a constant.  For every
+       factor c below 2^20 there is a dump shorter than 2^32 bytes, well-formed for every reader, whose processing (amd64, the walker
+       as it is now, one module whose symbols hold the one-byte CFI rule [share_cfi], which meets the CFI contract) yields more than
+       c x |file| frames, in both profiles: m thread-list entries cite the same m stack bytes, which the file holds once — m x (m + 1)
+       frames out of 2048 + 49 m bytes.  This is not a violation of C03 (the property asks for a budget tied to the input size, which
+       (1) is); it says which budget a checker may demand.  (Replayed on the real code: corpus/C03, share=1 cases; design/C03.md.) *)
 Theorem c03_linear_frame_budget_refuted : forall p (c : nat), Z.of_nat c < 1048576 ->
   exists fi outs req,
     file_ok C05.Model.amd64 fi /\ streams_in_file fi /\ cfi_contract C05.Model.amd64 share_cfi /\
